@@ -329,18 +329,20 @@ var _ validatorapi.Handler = (*stub)(nil)
 type answer struct {
 	kind, ver, blinded, meta string
 	nofield                  bool
-	n                        int
+	n, status                int
+	err                      error // what the Handler method returns when kind is "err"
 }
 
 func ansOf(c drv.Step) answer {
 	a := sub(c, "ans")
 	nf, _ := a["nofield"].(bool)
-	return answer{kind: drv.Str(a["kind"]), ver: drv.Str(a["ver"]), blinded: drv.Str(a["blinded"]), meta: drv.Str(a["meta"]), nofield: nf, n: drv.Num(a["n"])}
+	return answer{kind: drv.Str(a["kind"]), ver: drv.Str(a["ver"]), blinded: drv.Str(a["blinded"]), meta: drv.Str(a["meta"]), nofield: nf, n: drv.Num(a["n"]),
+		status: drv.Num(a["status"])}
 }
 
 func retRec(a answer, objs []string) drv.Step {
 	return drv.Step{"kind": a.kind, "objs": objs, "ver": a.ver, "blinded": a.blinded, "nofield": a.nofield, "ev": "0", "cv": "0", "meta": a.meta,
-		"eo": "false", "droot": ""}
+		"eo": "false", "droot": "", "status": a.status}
 }
 
 // called logs the H event and returns the scripted answer kind; ok = false: the request is not one of ours (probe).
@@ -358,14 +360,23 @@ func called(ctx context.Context, m string, args map[string]string, objs []string
 	if a.kind == "panic" {
 		panic("scripted panic in Handler." + m)
 	}
-	if a.kind == "cancel" || a.kind == "timeout" {
+	switch a.kind {
+	case "cancel", "timeout":
 		r.block(ctx)
-		a.kind = "err"
+		a.kind, a.err = "err", errScripted
+	case "apierr": // what go-eth2-client returns when the beacon node answered with that status
+		a.kind, a.err = "err", apiErr(m, a.status)
+	case "err":
+		a.err = errScripted
 	}
 	return a, r
 }
 
 var errScripted = errors.New("scripted handler failure")
+
+func apiErr(endpoint string, status int) error {
+	return &eth2api.Error{Method: http.MethodGet, Endpoint: endpoint, StatusCode: status, Data: []byte(fmt.Sprintf(`{"code":%d,"message":"upstream says no"}`, status))}
+}
 
 func u(x uint64) string { return strconv.FormatUint(x, 10) }
 
@@ -407,7 +418,7 @@ func (s *stub) AttesterDuties(ctx context.Context, opts *eth2api.AttesterDutiesO
 	ret := retRec(a, digs(objs))
 	md := metadata(a, ret)
 	if a, _ = called(ctx, "AttesterDuties", map[string]string{"epoch": u(uint64(opts.Epoch))}, idxs(opts.Indices), ret); a.kind == "err" {
-		return nil, errScripted
+		return nil, a.err
 	}
 	return &eth2api.Response[[]*eth2v1.AttesterDuty]{Data: data, Metadata: md}, nil
 }
@@ -430,7 +441,7 @@ func (s *stub) ProposerDuties(ctx context.Context, opts *eth2api.ProposerDutiesO
 	ret := retRec(a, digs(objs))
 	md := metadata(a, ret)
 	if a, _ = called(ctx, "ProposerDuties", map[string]string{"epoch": u(uint64(opts.Epoch))}, idxs(opts.Indices), ret); a.kind == "err" {
-		return nil, errScripted
+		return nil, a.err
 	}
 	return &eth2api.Response[[]*eth2v1.ProposerDuty]{Data: data, Metadata: md}, nil
 }
@@ -444,7 +455,7 @@ func (s *stub) SyncCommitteeDuties(ctx context.Context, opts *eth2api.SyncCommit
 		data, objs = append(data, d), append(objs, d)
 	}
 	if a, _ = called(ctx, "SyncCommitteeDuties", map[string]string{"epoch": u(uint64(opts.Epoch))}, idxs(opts.Indices), retRec(a, digs(objs))); a.kind == "err" {
-		return nil, errScripted
+		return nil, a.err
 	}
 	return &eth2api.Response[[]*eth2v1.SyncCommitteeDuty]{Data: data}, nil
 }
@@ -454,7 +465,7 @@ func (s *stub) AttestationData(ctx context.Context, opts *eth2api.AttestationDat
 	d := testutil.RandomAttestationDataPhase0()
 	args := map[string]string{"slot": u(uint64(opts.Slot)), "committee_index": u(uint64(opts.CommitteeIndex))}
 	if a, _ = called(ctx, "AttestationData", args, []string{}, retRec(a, digs([]any{d}))); a.kind == "err" {
-		return nil, errScripted
+		return nil, a.err
 	}
 	return &eth2api.Response[*eth2p0.AttestationData]{Data: d}, nil
 }
@@ -492,7 +503,7 @@ func (s *stub) SubmitAttestations(ctx context.Context, opts *eth2api.SubmitAttes
 		objs = append(objs, o)
 	}
 	if a, _ := called(ctx, "SubmitAttestations", map[string]string{"version": ver}, digs(objs), nil); a.kind == "err" {
-		return errScripted
+		return a.err
 	}
 	return nil
 }
@@ -501,7 +512,7 @@ func (s *stub) SubmitProposal(ctx context.Context, opts *eth2api.SubmitProposalO
 	p := opts.Proposal
 	cands := map[string]any{"phase0": p.Phase0, "altair": p.Altair, "bellatrix": p.Bellatrix, "capella": p.Capella, "deneb": p.Deneb, "electra": p.Electra, "fulu": p.Fulu}
 	if a, _ := called(ctx, "SubmitProposal", map[string]string{"version": p.Version.String()}, onlyField(cands, p.Version.String()), nil); a.kind == "err" {
-		return errScripted
+		return a.err
 	}
 	return nil
 }
@@ -532,7 +543,7 @@ func (s *stub) SubmitBlindedProposal(ctx context.Context, opts *eth2api.SubmitBl
 	p := opts.Proposal
 	cands := map[string]any{"bellatrix": p.Bellatrix, "capella": p.Capella, "deneb": p.Deneb, "electra": p.Electra, "fulu": p.Fulu}
 	if a, _ := called(ctx, "SubmitBlindedProposal", map[string]string{"version": p.Version.String()}, onlyField(cands, p.Version.String()), nil); a.kind == "err" {
-		return errScripted
+		return a.err
 	}
 	return nil
 }
@@ -555,7 +566,7 @@ func (s *stub) Validators(ctx context.Context, opts *eth2api.ValidatorsOpts) (*e
 	sort.Strings(ds)
 	args := map[string]string{"state_id": opts.State, "indices": strings.Join(idxs(opts.Indices), ","), "pubkeys": strings.Join(pks, ",")}
 	if a, _ = called(ctx, "Validators", args, []string{}, retRec(a, ds)); a.kind == "err" {
-		return nil, errScripted
+		return nil, a.err
 	}
 	return &eth2api.Response[map[eth2p0.ValidatorIndex]*eth2v1.Validator]{Data: data}, nil
 }
@@ -653,7 +664,7 @@ func (s *stub) Proposal(ctx context.Context, opts *eth2api.ProposalOpts) (*eth2a
 	args := map[string]string{"slot": u(uint64(opts.Slot)), "randao_reveal": fmt.Sprintf("%#x", opts.RandaoReveal[:]),
 		"graffiti": fmt.Sprintf("%#x", opts.Graffiti[:]), "builder_boost_factor": bbf}
 	if a, _ = called(ctx, "Proposal", args, []string{}, ret); a.kind == "err" {
-		return nil, errScripted
+		return nil, a.err
 	}
 	return &eth2api.Response[*eth2api.VersionedProposal]{Data: p}, nil
 }
@@ -695,7 +706,7 @@ func (s *stub) AggregateAttestation(ctx context.Context, opts *eth2api.Aggregate
 	args := map[string]string{"slot": u(uint64(opts.Slot)), "attestation_data_root": fmt.Sprintf("%#x", opts.AttestationDataRoot[:]),
 		"committee_index": u(uint64(opts.CommitteeIndex))}
 	if a, _ = called(ctx, "AggregateAttestation", args, []string{}, retRec(a, ds)); a.kind == "err" {
-		return nil, errScripted
+		return nil, a.err
 	}
 	return &eth2api.Response[*eth2spec.VersionedAttestation]{Data: va}, nil
 }
@@ -713,7 +724,7 @@ func (s *stub) SubmitAggregateAttestations(ctx context.Context, opts *eth2api.Su
 		objs = append(objs, onlyField(cands, g.Version.String())...)
 	}
 	if a, _ := called(ctx, "SubmitAggregateAttestations", map[string]string{"version": ver}, objs, nil); a.kind == "err" {
-		return errScripted
+		return a.err
 	}
 	return nil
 }
@@ -728,28 +739,28 @@ func list[T any](v []T) []any {
 
 func (s *stub) SubmitSyncCommitteeMessages(ctx context.Context, msgs []*altair.SyncCommitteeMessage) error {
 	if a, _ := called(ctx, "SubmitSyncCommitteeMessages", map[string]string{}, digs(list(msgs)), nil); a.kind == "err" {
-		return errScripted
+		return a.err
 	}
 	return nil
 }
 
 func (s *stub) SubmitSyncCommitteeContributions(ctx context.Context, cs []*altair.SignedContributionAndProof) error {
 	if a, _ := called(ctx, "SubmitSyncCommitteeContributions", map[string]string{}, digs(list(cs)), nil); a.kind == "err" {
-		return errScripted
+		return a.err
 	}
 	return nil
 }
 
 func (s *stub) SubmitVoluntaryExit(ctx context.Context, exit *eth2p0.SignedVoluntaryExit) error {
 	if a, _ := called(ctx, "SubmitVoluntaryExit", map[string]string{}, digs([]any{exit}), nil); a.kind == "err" {
-		return errScripted
+		return a.err
 	}
 	return nil
 }
 
 func (s *stub) SubmitValidatorRegistrations(ctx context.Context, regs []*eth2api.VersionedSignedValidatorRegistration) error {
 	if a, _ := called(ctx, "SubmitValidatorRegistrations", map[string]string{}, digs(list(regs)), nil); a.kind == "err" {
-		return errScripted
+		return a.err
 	}
 	return nil
 }
@@ -760,7 +771,7 @@ func (s *stub) SyncCommitteeContribution(ctx context.Context, opts *eth2api.Sync
 	args := map[string]string{"slot": u(uint64(opts.Slot)), "subcommittee_index": u(opts.SubcommitteeIndex),
 		"beacon_block_root": fmt.Sprintf("%#x", opts.BeaconBlockRoot[:])}
 	if a, _ = called(ctx, "SyncCommitteeContribution", args, []string{}, retRec(a, digs([]any{d}))); a.kind == "err" {
-		return nil, errScripted
+		return nil, a.err
 	}
 	return &eth2api.Response[*altair.SyncCommitteeContribution]{Data: d}, nil
 }
@@ -772,7 +783,7 @@ func (s *stub) BeaconCommitteeSelections(ctx context.Context, opts *eth2api.Beac
 		data = append(data, testutil.RandomBeaconCommitteeSelection())
 	}
 	if a, _ = called(ctx, "BeaconCommitteeSelections", map[string]string{}, digs(list(opts.Selections)), retRec(a, digs(list(data)))); a.kind == "err" {
-		return nil, errScripted
+		return nil, a.err
 	}
 	return &eth2api.Response[[]*eth2v1.BeaconCommitteeSelection]{Data: data}, nil
 }
@@ -784,7 +795,7 @@ func (s *stub) SyncCommitteeSelections(ctx context.Context, opts *eth2api.SyncCo
 		data = append(data, testutil.RandomSyncCommitteeSelection())
 	}
 	if a, _ = called(ctx, "SyncCommitteeSelections", map[string]string{}, digs(list(opts.Selections)), retRec(a, digs(list(data)))); a.kind == "err" {
-		return nil, errScripted
+		return nil, a.err
 	}
 	return &eth2api.Response[[]*eth2v1.SyncCommitteeSelection]{Data: data}, nil
 }
@@ -793,7 +804,7 @@ func (s *stub) NodeVersion(ctx context.Context, _ *eth2api.NodeVersionOpts) (*et
 	a := ansOf0(ctx)
 	v := fmt.Sprintf("Stub/v%d", testutil.RandomVIdx()%100000)
 	if a, _ = called(ctx, "NodeVersion", map[string]string{}, []string{}, retRec(a, []string{dig(v)})); a.kind == "err" {
-		return nil, errScripted
+		return nil, a.err
 	}
 	return &eth2api.Response[string]{Data: v}, nil
 }
@@ -820,12 +831,15 @@ func (s *stub) Proxy(ctx context.Context, req *http.Request) (*http.Response, er
 	}
 	hdr := fmt.Sprintf("up-%d", testutil.RandomVIdx()%100000)
 	kind := "ok"
-	if k := drv.Str(a["kind"]); k == "err" || k == "cancel" || k == "timeout" {
+	if k := drv.Str(a["kind"]); k == "err" || k == "cancel" || k == "timeout" || k == "apierr" {
 		kind = k
 	}
 	r.emit(drv.Step{"ev": "PX", "seen": seenOf(req, body), "ret": drv.Step{"kind": kind, "status": status, "hdr": hdr, "body": digBytes([]byte(payload))}})
 	if kind == "cancel" || kind == "timeout" {
 		r.block(ctx)
+	}
+	if kind == "apierr" {
+		return nil, apiErr(req.URL.Path, status)
 	}
 	if kind != "ok" {
 		return nil, errScripted
